@@ -389,6 +389,11 @@ def check(fx, rep, tier):
     # ... and so is the stack discipline: an instruction that pops fewer operands than the EVM leaves a stale constant where a
     # later SLOAD / SSTORE takes its key from (C07 R07.1, all 256 bytes)
     core.import_rules(rep, fx, "C07", "R05.6", only_rules=("R07.1",), floor=60, what="stack-effect obligations (C07 R07.1) behind 'the key expression of an executed access'")
+    # ... a stack overflow halts the EVM: an operation that grows the stack past 1024 items without raising executes code (and
+    # storage accesses) the EVM never reaches (C17 R17.6 stack rules); and the constants that become slots - hashed words, jump
+    # targets - are what the constant folder computes, so it has to compute what the EVM computes (C09, all rules)
+    core.import_rules(rep, fx, "C17", "R05.6", only_rules=("R17.6",), floor=2, what="stack-limit obligations (C17 R17.6)", key_filter=lambda k: "stack-" in k)
+    core.import_rules(rep, fx, "C09", "R05.6", floor=100, what="constant-folding obligations (C09) behind 'a constant obtained by the documented arithmetic'")
     core.import_rules(rep, fx, "C08", "R05.6", floor=50, what="control-flow obligations (C08) behind 'executed storage access'")
     rep.exhaustive = True
     return rep.finish(
